@@ -299,7 +299,10 @@ func checkIdempotency(o *Observed) []Finding {
 			if r.Res == nil || !r.Res.OK {
 				continue
 			}
-			if first == nil {
+			// (a metadata write answers without content: there is nothing to compare it with - it can only be judged by what
+			// the log holds under the key)
+			if r.Res.Tx == nil {
+			} else if first == nil {
 				first = r
 			} else if r.Res.TxID != first.Res.TxID || !reflect.DeepEqual(r.Res.Tx, first.Res.Tx) {
 				out = append(out, Finding{"ik-successes-differ:" + r.Op.Kind, fmt.Sprintf("key %q: attempt %d returned tx %s, attempt %d returned tx %s", ik, first.Op.Attempt, first.Res.TxID, r.Op.Attempt, r.Res.TxID)})
@@ -307,6 +310,8 @@ func checkIdempotency(o *Observed) []Finding {
 			li := byIK[ik]
 			if len(li) == 0 {
 				out = append(out, Finding{"ik-success-without-effect:" + r.Op.Kind, fmt.Sprintf("key %q: success returned but no log entry carries the key", ik)})
+			} else if len(o.CommitSteps) > li[0] && r.RetStep >= 0 && o.CommitSteps[li[0]] > r.RetStep {
+				out = append(out, Finding{"ik-success-before-the-entry-was-persisted:" + r.Op.Kind, fmt.Sprintf("key %q: attempt %d was answered at step %d, the entry carrying the key was persisted at step %d", ik, r.Op.Attempt, r.RetStep, o.CommitSteps[li[0]])})
 			} else if t := logTx(o.Logs[li[0]]); t != nil && r.Res.Tx != nil {
 				if d := sameTx(r.Res.Tx, t); d != "" {
 					out = append(out, Finding{"ik-success-is-not-the-persisted-effect:" + r.Op.Kind, fmt.Sprintf("key %q: %s", ik, d)})
@@ -337,7 +342,7 @@ func checkReferences(o *Observed) []Finding {
 		}
 	}
 	for _, r := range o.Recs {
-		if r.Op.Reference == "" || r.Op.DryRun || r.Res == nil || r.Op.IK != "" {
+		if r.Op.Reference == "" || r.Res == nil || r.Op.IK != "" {
 			continue
 		}
 		li := byRef[r.Op.Reference]
@@ -350,6 +355,12 @@ func checkReferences(o *Observed) []Finding {
 			continue
 		}
 		if r.CallStep > winnerCommit {
+			if r.Res.OK && r.Op.DryRun {
+				// a preview is an attempt like any other: it is told about the conflict, it is not shown a transaction that
+				// cannot be committed
+				out = append(out, Finding{"late-duplicate-not-a-conflict:preview-accepted", fmt.Sprintf("preview %s reuses reference %q after it was committed and was answered with a transaction", r.Op.Tag, r.Op.Reference)})
+				continue
+			}
 			if r.Res.OK {
 				continue // already reported as committed twice
 			}
@@ -516,6 +527,12 @@ func checkReverts(o *Observed) []Finding {
 			}
 		}
 	}
+	for _, r := range o.Recs {
+		// forced mode means: whatever the accounts hold (every source of the mirror transaction may go into overdraft)
+		if r.Op.Kind == "revert" && r.Op.Force && r.Res != nil && !r.Res.OK && r.Res.Class == "insufficient" {
+			out = append(out, Finding{"forced-revert-refused-for-lack-of-funds", fmt.Sprintf("forced revert of %s: %s", r.Op.TxID, r.Res.Err)})
+		}
+	}
 	nOK := map[string]int{}
 	for _, r := range o.Recs {
 		if r.Op.Kind == "revert" && r.Res != nil && r.Res.OK && !r.Op.DryRun && r.Op.IK == "" {
@@ -605,6 +622,9 @@ func checkEvents(o *Observed) []Finding {
 		return -1
 	}
 	for _, m := range o.Msgs {
+		if m.Topic != m.Type {
+			out = append(out, Finding{"event-on-wrong-topic:" + m.Type, fmt.Sprintf("a %s event was published under the topic %q", m.Type, m.Topic)})
+		}
 		switch m.Type {
 		case "COMMITTED_TRANSACTIONS":
 			var p struct {
